@@ -3,7 +3,7 @@
 From QV Require Import Base.Util C12.Model C11.Model C11.Proofs C14.Model C14.Proofs.
 
 (* the fragment runs iff the worker computes the request's digest from its own split set AND the shard
-   index exists (assign_lpt builds max(shard_count,1) nodes, so shard_count = 0 admits index 0) *)
+   index exists (assign_lpt builds max(shard_count,1) nodes, so shard_count = 0 lets index 0 through) *)
 Theorem C14_fragment_guard : forall req w,
   guard req w = Run <-> digest w = r_digest req /\ r_index req < Z.max (r_count req) 1.
 Proof. exact fragment_guard. Qed.
